@@ -26,7 +26,8 @@ ODD = ['\u0130', '\u01c5', '\xdf', '\xc9', '\u03a9', '\u0131']   # I-dot, Dz-car
 ALPHABET = [chr(i) for i in range(256)] + WS + ODD + ['\u0307', '\u01c6', '\u03c9', '\u01c4',
                                                        '\ufb01', '\u03bf', '\u03c2', '\u039f', '\u0663',   # fi ligature, omicron, final sigma, Omicron, Arabic-Indic 3
                                                        '\ue000', '\ufffe',   # a private-use character, a noncharacter (neither has a Unicode name)
-                                                       '\uff12']   # fullwidth digit two
+                                                       '\uff12',   # fullwidth digit two
+                                                       '\u200b', '\ufeff']   # zero-width space, byte order mark
 
 _key_re = re.compile(r'^[-:\w\s\.\+]$', re.UNICODE)
 _ws_re = re.compile(r'^\s$', re.UNICODE)
@@ -185,7 +186,7 @@ PREWARM_MOD = 4
 def prewarm(lic, text, kw):
     """Calls that must not influence the one under observation (answers depend only on table and input): for one
     text in four (chosen by a checksum of the text, so a replay repeats it) the same text is first parsed on the same
-    instance under every other flag combination, once under another spacing and twice in other letter cases; outcomes are ignored.
+    instance under every other flag combination, its token stream is read for the first token only, the very same call is made once before, and the text is parsed under another spacing and in two other letter cases; outcomes are ignored.
     The order of these calls is a pseudo-random function of the text."""
     import random
     import zlib
@@ -202,6 +203,14 @@ def prewarm(lic, text, kw):
                 lic.parse(text, **f)
             except Exception:  # noqa
                 pass
+    try:
+        next(iter(lic.tokenize(text, strict=cur['strict'], simple=cur['simple'])))     # a token stream read for its first token only
+    except Exception:  # noqa
+        pass
+    try:
+        lic.parse(text, **cur)                                                          # the very same call once before
+    except Exception:  # noqa
+        pass
     for other in (' ' + text.replace(' ', '  '), text.swapcase(), text.upper()):     # another spacing, other letter cases
         try:
             lic.parse(other, **cur)
